@@ -304,6 +304,12 @@ func ruleC10(c *Check, p *Prog) {
 	c.Floor("R-READFULL", 8)
 	c.Floor("R-FRESH-SAMPLE", 7)
 	c.Floor("R-SERIAL", 3)
+	checkSampleProvenance(c, p)
+}
+
+// checkSampleProvenance: R-READFULL / R-FRESH-SAMPLE / R-SERIAL for every workflow (C10; also a link of C14's rejection
+// chain: what is judged is what was read from the workflow's own source).
+func checkSampleProvenance(c *Check, p *Prog) {
 	for _, ref := range seqRefs {
 		d := analyzeSeq(c, p, ref.Name, map[string]bool{})
 		if d == nil {
